@@ -43,6 +43,10 @@ pub struct Directory<TC, S: Database, V> {
     /// (in this case we do utilize the write() lock which can only occur 1
     /// at a time and gates further read() locks being acquired during write()).
     cache_lock: Arc<RwLock<()>>,
+    /// Serializes publish operations issued through this directory and its clones. A publish
+    /// reads the current epoch and the users' versions, builds the next epoch on top of them
+    /// and commits; two of them interleaving would both build epoch `n + 1` from epoch `n`.
+    publish_lock: Arc<tokio::sync::Mutex<()>>,
     tc: PhantomData<TC>,
 }
 
@@ -54,6 +58,7 @@ impl<TC, S: Database, V: VRFKeyStorage> Clone for Directory<TC, S, V> {
             vrf: self.vrf.clone(),
             parallelism_config: self.parallelism_config,
             cache_lock: self.cache_lock.clone(),
+            publish_lock: self.publish_lock.clone(),
             tc: PhantomData,
         }
     }
@@ -92,6 +97,7 @@ where
             vrf,
             parallelism_config,
             cache_lock: Arc::new(RwLock::new(())),
+            publish_lock: Arc::new(tokio::sync::Mutex::new(())),
             tc: PhantomData,
         })
     }
@@ -104,6 +110,9 @@ where
     pub async fn publish(&self, updates: Vec<(AkdLabel, AkdValue)>) -> Result<EpochHash, AkdError> {
         // The guard will be dropped at the end of the publish operation
         let _guard = self.cache_lock.read().await;
+        // Only one publish at a time: everything from reading the current epoch to the commit
+        // has to happen without another publish in between
+        let _publish_guard = self.publish_lock.lock().await;
 
         // Check for duplicate labels and return an error if any are encountered
         let distinct_set: HashSet<AkdLabel> =
@@ -895,6 +904,7 @@ where
             vrf,
             parallelism_config,
             cache_lock: Arc::new(RwLock::new(())),
+            publish_lock: Arc::new(tokio::sync::Mutex::new(())),
             tc: PhantomData,
         }))
     }
